@@ -123,6 +123,13 @@ class IOWorker (object):
           e.errno, e.strerror)
       self.close()
       loop._workers.discard(self)
+    except Exception:
+      # A failure while handling received data must only cost this worker,
+      # not the whole IO loop.
+      log.exception("Socket %s: exception while handling received data",
+                    str(self))
+      self.close()
+      loop._workers.discard(self)
 
   def _do_send (self, loop):
     if self._connecting and self._try_connect(loop): return
